@@ -1,12 +1,14 @@
 // Command rewrite prepares a scratch copy of the library in which every
 // synchronisation primitive goes through the controlled scheduler.
 //
+// Usage:
+//
 //	go run . -src /repo -dst <scratch-dir> -overlay /verif/harness/overlay
 //
-//  1. copies the working tree of -src (everything except .git) to -dst;
-//  2. rewrites, by go/ast selector substitution, every non-test .go file of the
-//     package directories <dst>/ and <dst>/internal/xsync/ (see rules below);
-//  3. copies the -overlay tree over -dst.
+// It copies the working tree of -src (everything except .git) to -dst, then
+// rewrites, by go/ast selector substitution, every non-test .go file of the
+// package directories <dst>/ and <dst>/internal/xsync/ (rules: see the tables
+// below and harness/README.md), then copies the -overlay tree over -dst.
 //
 // Exit status 0 on success. Lines on stdout:
 //
